@@ -137,3 +137,25 @@ Definition chk_fun (F : list val -> list val) (ticks base : list (list (list val
   (impl : list (list val)) : N :=
   verdict (ticks_agree true impl (map (fun t => F (nth 0 t [])) ticks))
           (ticks_agree true impl (map (fun t => F (nth 0 t [])) base)).
+
+(* ------------------------------------------------------------------ C33 flows *)
+Definition m_value_counts := FA (AFoldKeyed (VN 0) c_count (SSrc 0)).
+(* KeyedStream::first = fold_early_stop(..).map(unwrap): per key the first value, never changed *)
+Definition m_keyed_first := FA (AReduceKeyed c_first (SSrc 0)).
+
+(* entries() of the BoundedValue keyed singleton `first()`: per tick the entries of the keys first
+   seen in that tick, with the first value of the key *)
+Fixpoint kfirst_run (seen : list val) (xss : list (list val)) : list (list val) :=
+  match xss with
+  | [] => []
+  | xs :: r =>
+      let fresh := filter (fun e => negb (memb (vfst e) seen)) (kentries (kreduce_list c_first xs)) in
+      fresh :: kfirst_run (seen ++ map vfst fresh) r
+  end.
+Definition chk33_first (ticks : list (list (list val))) (impl : list (list val)) : N :=
+  let xss := map (fun t => nth 0%nat t []) ticks in
+  verdict (ticks_agree false impl (kfirst_run [] xss))
+          (perm_b (concat impl) (kentries (kreduce_list c_first (concat xss))) &&
+           nodup_b (map vfst (concat impl))).
+Definition m_keyed_first_emit : list string :=
+  ["for_each"; "source_stream"; "scan<'static>"; "flat_map"; "map"]%string.
